@@ -23,6 +23,31 @@ class Done(Exception):
     pass
 
 
+_pub = None    # list of tags logged through public syntax (rt.note in default expressions, rt.lazy specifier values)
+
+
+def note(tag, value):
+    """Called from the default-value expressions of the catalogue's user classes."""
+    if _pub is not None:
+        _pub.append(tag)
+    return value
+
+
+def lazy(tag, value):
+    """A specifier value that logs when it is evaluated (a DelayedArgument without dependencies)."""
+    from scenic.core.lazy_eval import DelayedArgument
+
+    def evaluate(context):
+        if _pub is not None:
+            _pub.append(tag)
+        return value
+
+    return DelayedArgument(set(), evaluate)
+
+
+HOOKS = dict(order=False, assign=False)
+
+
 def capture(cls, specifiers):
     return list(specifiers)
 
@@ -38,7 +63,14 @@ def _install():
 
     if getattr(S.Specifier, "_verif_wrapped", False):
         return
-    orig_get = S.Specifier.getValuesFor
+    # The two internal observation points are optional: when a refactoring renames them the check goes on with what
+    # public syntax shows (error class, success, rt.note / rt.lazy logs) instead of raising a false alarm.
+    orig_get = getattr(S.Specifier, "getValuesFor", None)
+    sp = OT.Constructible.__dict__.get("_specify")
+    if orig_get is None or not isinstance(sp, classmethod):
+        S.Specifier._verif_wrapped = True
+        return
+    HOOKS["order"] = HOOKS["assign"] = True
 
     def getValuesFor(self, obj):
         lab = _labels.get(id(self))
@@ -90,11 +122,12 @@ def describe(spec):
     )
 
 
-def class_info(cls):
+def class_info(cls, OT=None):
     """What the class contributes to resolution (cls._defaults, _finalProperties) and the raw
     per-class definitions along the MRO (for the merge_defaults model)."""
-    import scenic.core.object_types as OT
     import scenic.core.specifiers as S
+    if OT is None:
+        import scenic.core.object_types as OT
 
     defaults = [[p, describe(s)] for p, s in cls._defaults.items()]
     mro = []
@@ -110,9 +143,72 @@ def class_info(cls):
                 dynamics=sorted(cls._dynamicProperties))
 
 
+def tolerant_import():
+    """scenic.core.object_types, even when a class statement further down the module fails (a defect in
+    __init_subclass__/resolveFor can make Scenic's own 2D classes unloadable): the partially executed module still
+    has Constructible and the classes defined before the failure.  -> (module, error or None)"""
+    import importlib
+    import importlib.util
+    try:
+        return importlib.import_module("scenic.core.object_types"), None
+    except Exception as e:  # noqa
+        err = f"{type(e).__name__}: {str(e)[:200]}"
+    name = "scenic.core.object_types"
+    spec = importlib.util.find_spec(name)
+    mod = importlib.util.module_from_spec(spec)
+    sys.modules[name] = mod
+    try:
+        spec.loader.exec_module(mod)
+    except Exception:  # noqa
+        pass
+    finally:
+        sys.modules.pop(name, None)
+    return mod, err
+
+
+def merge_cases(hiers):
+    """Class-level merging of defaults on its own (no Scenic program is compiled): Scenic's built-in classes as far
+    as they load, plus generated class hierarchies created with type(name, bases, {'_scenic_properties': ...}).
+    hiers: [[ [name, [base names], [[prop, [deps], additive, dynamic, final], ...]], ... ], ...]"""
+    OT, import_error = tolerant_import()
+    import scenic.core.specifiers as S
+    out = dict(import_error=import_error, builtin={}, hiers=[])
+    for name, obj in list(vars(OT).items()):
+        if isinstance(obj, type) and hasattr(OT, "Constructible") and issubclass(obj, OT.Constructible) \
+                and obj.__module__ == "scenic.core.object_types" and "_defaults" in obj.__dict__:
+            try:
+                out["builtin"][name] = class_info(obj, OT)
+            except Exception as e:  # noqa
+                out["builtin"][name] = dict(error=f"{type(e).__name__}: {e}")
+    for hier in hiers:
+        real, shadow, res = {}, {}, []
+        for name, bases, props in hier:
+            shadow[name] = type(name, tuple(shadow[b] for b in bases) or (object,), {})
+            mro_names = [c.__name__ for c in shadow[name].__mro__ if c is not object]
+            d = {}
+            for p, deps, add, dyn, fin in props:
+                attrs = set(a for a, on in (("additive", add), ("dynamic", dyn), ("final", fin)) if on)
+                d[p] = S.PropertyDefault(tuple(deps), attrs, (lambda self: 0)) if (deps or attrs or len(p) % 2) else 0
+            rec = dict(name=name, mro=mro_names)
+            if any(b not in real for b in bases):
+                rec["skipped"] = "a base class could not be created"
+                res.append(rec)
+                continue
+            try:
+                cls = type(name, tuple(real[b] for b in bases) or (OT.Constructible,), {"_scenic_properties": d})
+                real[name] = cls
+                rec["info"] = class_info(cls, OT)
+            except Exception as e:  # noqa
+                rec["error"] = type(e).__name__
+                rec["msg"] = str(e)[:200]
+            res.append(rec)
+        out["hiers"].append(res)
+    return out
+
+
 def run_case(cls, inst_ids):
     """Create one object from the given instances in the given order; return the observation."""
-    global _log
+    global _log, _pub
     import scenic.syntax.veneer as veneer
     from scenic.core.errors import SpecifierError
 
@@ -131,11 +227,12 @@ def run_case(cls, inst_ids):
     _log = dict(order=[], assign=[])
     _last[0] = None
     obs = dict(table=table)
+    _pub = []
     try:
         obj = veneer.new(cls, specs)
         obs.update(stage="ok", props=sorted(obj.properties))
     except Exception as e:
-        started = bool(_log["order"])
+        started = bool(_log["order"]) or bool(_pub)
         kind = None
         if isinstance(e, SpecifierError):
             for rx, k in KINDS:
@@ -146,6 +243,9 @@ def run_case(cls, inst_ids):
                    is_specifier_error=isinstance(e, SpecifierError))
     obs["order"] = _log["order"]
     obs["assign"] = _log["assign"]
+    obs["pub"] = _pub
+    obs["hooks"] = HOOKS["order"] and HOOKS["assign"]
+    _pub = None
     _log = None
     _labels.clear()
     return obs
@@ -155,7 +255,7 @@ def main():
     """Called at the end of the generated Scenic program."""
     global RESULT
     _install()
-    out = dict(classes={}, table={}, cases=[])
+    out = dict(classes={}, table={}, cases=[], hooks=dict(HOOKS))
     for name, cls in CLASSES.items():
         try:
             out["classes"][name] = class_info(cls)
